@@ -1,5 +1,7 @@
 package main
 
+import "time"
+
 func bcUnit(files []string, hs ...Harness) Unit {
 	return Unit{PkgDir: "pkg/bytecode", PkgPath: "evylang.dev/evy/pkg/bytecode", PkgName: "bytecode", Files: files, Harnesses: hs}
 }
@@ -9,6 +11,7 @@ func init() {
 		ID: "C16", Title: "Compiled bytecode behaves like the tree-walking evaluator", Level: "translation_validation",
 		Units: []Unit{bcUnit([]string{"bytecode/c17.go", "bytecode/c16.go"},
 			Harness{Fn: "ZZC16Diff", Expect: []string{"compared", "unsupported", "eval-panics", "vm-divzero", "witness:end"}, MaxInstr: 5_000_000},
+			Harness{Fn: "ZZC16Gen", Quick: p("GD", 2, "GL0", 1, "GL1", 2, "GL2", 1), Thorough: p("GD", 2, "GL0", 2, "GL1", 2, "GL2", 1), ThoroughBudget: 25 * time.Minute, Expect: []string{"compared", "witness:end"}, MaxInstr: 5_000_000},
 		)},
 		Assumptions: []string{
 			"program family: 37 templates over the whole language (arithmetic, comparison, strings, arrays, maps, if/while/for in all four range forms, break, shadowing, nested locals, composite equality, and 7 constructs without a translation); the two leading declarations carry unconstrained float64 values (templates that index or iterate restrict them to small integers and halves)",
@@ -28,6 +31,7 @@ func init() {
 			Harness{Fn: "ZZC17Patch", Expect: []string{"witness:end"}},
 			Harness{Fn: "ZZC17SymbolStep", Quick: p("D", 3), Thorough: p("D", 4), Expect: []string{"define", "push-define", "pop", "witness:end"}},
 			Harness{Fn: "ZZC17Emitted", Expect: []string{"emitted-ran", "witness:end"}, MaxInstr: 5_000_000},
+			Harness{Fn: "ZZC17Gen", Quick: p("GD", 2, "GL0", 1, "GL1", 2, "GL2", 1), Thorough: p("GD", 2, "GL0", 2, "GL1", 2, "GL2", 1), ThoroughBudget: 25 * time.Minute, Expect: []string{"emitted-ran", "witness:end"}, MaxInstr: 5_000_000},
 		)},
 		Assumptions: []string{
 			"symbol-table step: pre-state = chain of 1..D tables with symbolic counters and symbolic distinct slots inside [base,index) (the representation invariant; base = parent's counter for nested local scopes), one Define / Push+Define / Pop with a symbolic name",
